@@ -433,6 +433,26 @@ func c17WantHooked(c *c17TCPCase) bool {
 	return c.RD || net.ParseIP(host) != nil
 }
 
+var c17BystanderData [][]byte
+
+// c17Bystanders: first bytes of other clients' flows (a TLS ClientHello for another name, one with a
+// short record, an HTTP request), every byte different from what the templates send at that offset.
+func c17Bystanders() [][]byte {
+	if c17BystanderData == nil {
+		hello, _, _ := c17ClientHello("bystander.invalid")
+		for i := 6; i < len(hello); i++ {
+			hello[i] ^= 0x5a // not parseable any more, still a TLS record of the declared length
+		}
+		c17BystanderData = [][]byte{
+			c17TLSRecord(0x16, 0x03, len(hello), hello),
+			c17TLSRecord(0x16, 0x01, 4000, bytes.Repeat([]byte{0xee}, 4000)),
+			c17TLSRecord(0x16, 0x02, 9, bytes.Repeat([]byte{0xdd}, 3)),
+			[]byte("OPTIONS /bystander HTTP/1.1\r\nHost: bystander.invalid\r\n\r\n"),
+		}
+	}
+	return c17BystanderData
+}
+
 func c17RunTCP(c *c17TCPCase) (res c17TCPResult) {
 	val, stack := evidence.Catch(func() { res = c17RunTCPInner(c) })
 	if val != nil {
@@ -512,6 +532,24 @@ func c17RunTCPInner(c *c17TCPCase) (res c17TCPResult) {
 		}
 		return fail("putback-differs", "putback(%d bytes)||unread(%d bytes) != sent(%d bytes): the stream handed out %d bytes, putback has %d, first difference at offset %d; putback=%s consumed=%s",
 			len(putback), len(sent)-st.pos, len(sent), st.pos, len(putback), d, c17Hex(putback), c17Hex(sent[:st.pos]))
+	}
+	// (1b) the putback stays intact while OTHER flows are sniffed: the server holds it across the
+	// outbound dial (Outbound.TCP may take seconds) and only then writes it to the target; every
+	// stream is handled by its own goroutine, so other TLS/HTTP flows are sniffed by the same
+	// Sniffer in between
+	for _, other := range c17Bystanders() {
+		oaddr := "10.99.0.1:443"
+		ost := &c17Stream{data: append([]byte(nil), other...), fireAt: -1, end: c17EndEOF}
+		_, _ = sn.TCP(ost, &oaddr)
+		_, _ = (&Sniffer{}).TCP(&c17Stream{data: append([]byte(nil), other...), fireAt: -1, end: c17EndEOF}, &oaddr)
+	}
+	if !bytes.Equal(putback, sent[:st.pos]) {
+		res.key = fmt.Sprintf("consumed=%d", st.pos)
+		d := 0
+		for d < len(putback) && d < st.pos && putback[d] == sent[d] {
+			d++
+		}
+		return fail("putback-aliased", "the putback (%d bytes) was intact when TCP returned but changed (first at offset %d) after other flows were sniffed: its memory is shared with later calls, the target would receive another flow's bytes", len(putback), d)
 	}
 	// (2) deadline: armed before the first read, cleared on return
 	if st.unarmedReads > 0 {
